@@ -557,6 +557,10 @@ class Certificate:
         bool
             True if the certificate is valid, False otherwise.
         """
+        # IEEE 1609.2 §6.4.3: the certificate format version is 3. The field is not
+        # covered by the issuer's signature, so it has to be checked explicitly.
+        if self.certificate.get("version") != 3:
+            return False
         # §6: verifyKeyIndicator must match certificate type
         cert_type = self.certificate.get("type")
         vki = self.certificate.get("toBeSigned", {}).get("verifyKeyIndicator")
